@@ -257,7 +257,8 @@ def to_categorical(array, highlevel=True):
                 content = layout.content
                 cls = ak.layout.IndexedArray64
             elif isinstance(layout, ak._util.optiontypes):
-                content = layout.content
+                # masked arrays may have more content than mask
+                content = layout.content[0 : len(layout)]
                 cls = ak.layout.IndexedOptionArray64
             else:
                 content = layout
@@ -280,8 +281,9 @@ def to_categorical(array, highlevel=True):
 
             if isinstance(layout, ak._util.indexedoptiontypes):
                 original_index = ak.nplike.numpy.asarray(layout.index)
-                index = mapping[original_index]
-                index[original_index < 0] = -1
+                index = ak.nplike.numpy.full(len(original_index), -1, dtype=np.int64)
+                is_valid = original_index >= 0
+                index[is_valid] = mapping[original_index[is_valid]]
                 index = ak.layout.Index64(index)
 
             elif isinstance(layout, ak._util.indexedtypes):
